@@ -70,9 +70,9 @@ type WorkerOut struct {
 
 type knownFile struct {
 	Findings []struct {
-		Property  string `json:"property"`
-		Signature string `json:"signature"`
-		Status    string `json:"status"`
+		Property   string   `json:"property"`
+		Signatures []string `json:"signatures"`
+		Status     string   `json:"status"`
 	} `json:"findings"`
 }
 
@@ -108,7 +108,9 @@ func loadKnown() map[string]bool {
 	}
 	for _, f := range kf.Findings {
 		if f.Status == "known" {
-			out[f.Property+"|"+f.Signature] = true
+			for _, sg := range f.Signatures {
+				out[f.Property+"|"+sg] = true
+			}
 		}
 	}
 	return out
